@@ -270,6 +270,22 @@ func MonitorC11(c *Case, o *Obs) []Finding {
 			}
 		}
 	}
+	// a full-table replay hands a (foreign) advertisement to the peer at most once
+	type rk struct {
+		step, from, to int
+		k              key
+	}
+	rep := map[rk]int{}
+	for _, m := range o.Log {
+		if c.Ops[m.Step].K == "connect" && m.Adv.Origin != m.From {
+			rep[rk{m.Step, m.From, m.To, key{m.Adv.Origin, m.Adv.Seq}}]++
+		}
+	}
+	for r, n := range rep {
+		if n > 1 {
+			out = append(out, Finding{"replay-repeats-advertisement", fmt.Sprintf("step %d: the full-table replay of node %d to node %d carries advertisement (%d,%d) %d times", r.step, r.from, r.to, r.k.origin, r.k.seq, n)})
+		}
+	}
 	// every frame ever sent carries a path without repetition
 	for _, m := range o.Log {
 		if !noDup(m.Adv.Path) {
@@ -383,6 +399,7 @@ func MonitorC12(c *Case, o *Obs) []Finding {
 		}
 	}
 	out = append(out, monitorReplayComplete(c, o)...)
+	out = append(out, monitorDecodable(o)...)
 	// completeness: every node announced after the topology was final and the graph is connected. With hop limits
 	// that can cut the mesh the expectation is order-independent only on a tree (unique paths): there an agent must
 	// learn an origin exactly when every agent on the way forwards (distance < its limit) and it accepts itself
@@ -516,6 +533,7 @@ func MonitorC14(c *Case, o *Obs) []Finding {
 		return nil
 	}
 	out = append(out, monitorC14Accept(c, o)...)
+	out = append(out, monitorDecodable(o)...)
 	if c.limitsCut() {
 		return out
 	}
@@ -800,6 +818,20 @@ func monitorReplayComplete(c *Case, o *Obs) []Finding {
 					out = append(out, Finding{"replay-incomplete", fmt.Sprintf("step %d: %d connected to %d; %d held kind %d id %d of origin %d (sequence %d, path %v) but after the replay was delivered (step %d) %d holds nothing for it", j, y, x, x, e.Kind, e.ID, e.Origin, e.Seq, e.Path, q, y)})
 				}
 			}
+		}
+	}
+	return out
+}
+
+// monitorDecodable: every ROUTE_ADVERTISE / ROUTE_WITHDRAW frame an agent
+// sends must decode at the receiver (a frame that does not is dropped by
+// agent.handleRouteAdvertise: nothing is learned or renewed from it).
+func monitorDecodable(o *Obs) []Finding {
+	var out []Finding
+	for _, m := range o.Log {
+		if m.Adv.Origin == 998 {
+			out = append(out, Finding{"undecodable-advertisement", fmt.Sprintf("step %d: the frame node %d sent to node %d does not decode at the receiver", m.Step, m.From, m.To)})
+			break
 		}
 	}
 	return out
